@@ -47,7 +47,7 @@ var (
 type verifC03GReaderAt struct{ r *bytes.Reader }
 
 func (v verifC03GReaderAt) ReadAt(p []byte, off int64) (int, error) { return v.r.ReadAt(p, off) }
-func (v verifC03GReaderAt) Close() error                             { return nil }
+func (v verifC03GReaderAt) Close() error                            { return nil }
 
 func verifC03GLookup(db *compactindexsized.DB, key []byte) ([]byte, error) {
 	eb, _ := db.Header.Metadata.Get(indexmeta.MetadataKey_Epoch)
